@@ -118,6 +118,15 @@ def _single_atom(k: str) -> bool:
     return False
 
 
+def canon_quant(k: str) -> str:
+    """`all[P]` over one comparison atom is written `not[any[not P]]` so that `(x == nd).all()` and `(x != nd).any()` meet in one form."""
+    if k.startswith("all[") and k.endswith("]") and _single_atom(k):
+        inner = k[4:-1]
+        if _single_atom(inner) and inner.split("[", 1)[0] in NEG:
+            return f"not[any[{negate_key(inner)}]]"
+    return k
+
+
 def negate_key(k: str) -> str:
     if _single_atom(k):
         tag, rest = k.split("[", 1)
@@ -241,7 +250,7 @@ class StoreCollector:
                 return [k if a else negate_key(k)]
             if isinstance(t, ast.UnaryOp) and isinstance(t.op, ast.Not):
                 return interp(t.operand, not a)
-            k = key(t)
+            k = canon_quant(key(t))
             return [k if a else negate_key(k)]
         return interp(test, arm)
 
